@@ -767,6 +767,9 @@ impl Check for C01 {
         let k = GenKnobs { max_nodes: 5, max_ops: 40, span_ms: 25_000, level_bias_none: 0.4 };
         serde_json::to_value(gen_cluster_scenario(&mut rng, &k)).unwrap()
     }
+    fn isolate(&self, _scenario: &Value) -> bool {
+        true
+    }
     fn execute(&self, scenario: &Value) -> Outcome {
         let sc: Scenario = match serde_json::from_value(scenario.clone()) {
             Ok(s) => s,
